@@ -239,6 +239,7 @@ func streamMarks(s *stream.Stream, c *streamCtx, corpus string) error {
 			continue
 		}
 		s.Case("load "+r.load, "loaded", "load "+r.load, false)
+		s.Case("ping", "pong", "judge:wf", false)
 		for kd, n := range r.kinds {
 			s.Dist["node:"+kd] += n
 		}
@@ -275,6 +276,7 @@ func marksForFile(path string, rng *rand.Rand, k, singlesCap int) marksFile {
 			req := fmt.Sprintf("marks %s %s", g.name, ls.String())
 			judge := fmt.Sprintf("judge:marks %s %s | %s", g.name, ls.String(), impl)
 			mf.cases = append(mf.cases, marksCase{req, impl, judge, ls.kind, !strings.HasPrefix(impl, "ok 0 ")})
+			mf.cases = append(mf.cases, marksCase{"ping", "pong", fmt.Sprintf("judge:wflegal %s %s", g.name, ls.String()), "wflegal", false})
 			if res.Err == "" {
 				counts = append(counts, fmt.Sprint(res.Count))
 			}
